@@ -407,18 +407,21 @@ def applyExt (ext : Definition) (d : Definition) : Definition :=
   { d with dirs := d.dirs ++ ext.dirs, interfaces := d.interfaces ++ ext.interfaces, fields := d.fields ++ ext.fields,
            types := d.types ++ ext.types, enumValues := d.enumValues ++ ext.enumValues }
 
+/-- `if def == nil { schema.Types[ext.Name] = &Definition{Kind, Name, Position}; … }` -/
+def ensureBase (ext : Definition) (types : List (Name × Definition)) : List (Name × Definition) :=
+  match types.lookup ext.name with
+  | some _ => types
+  | none => types ++ [(ext.name, extStub ext)]
+
 /-- second loop: fold the extensions into their base definitions -/
 def foldExtensions : List Definition → List (Name × Definition) → Except LoadError (List (Name × Definition))
   | [], types => .ok types
   | ext :: rest, types =>
-    let types1 := match types.lookup ext.name with
-      | some _ => types
-      | none => types ++ [(ext.name, extStub ext)]
-    match types1.lookup ext.name with
-    | none => .ok types1              -- unreachable
+    match (ensureBase ext types).lookup ext.name with
+    | none => .ok (ensureBase ext types)              -- unreachable
     | some d =>
       if d.kind != ext.kind then .error (errorPosf ext.pos (Msg.extendKind ext.name d.kind ext.kind))
-      else foldExtensions rest (modifyKV ext.name (applyExt ext) types1)
+      else foldExtensions rest (modifyKV ext.name (applyExt ext) (ensureBase ext types))
 
 abbrev Rel := List (Name × List (Option Name))
 
@@ -527,12 +530,27 @@ def addIntrospection (d : Definition) : Definition := { d with fields := d.field
 def nilName : Name := str "<nil>"
 def relOut (r : Rel) : List (Name × List Name) := r.map fun (k, vs) => (k, vs.map (·.getD nilName))
 
+/-- the returned `ast.Schema`: inferred roots (only without a `schema` definition), introspection
+    fields appended to the query root, relations with pointers rendered as names -/
+def mkSchema (sd : SchemaDoc) (s : LState) (r1 : Roots) (dirs1 : List Directive) : Schema :=
+  let r := if sd.schema.isEmpty then inferRoots s.types r1 else r1
+  { query := r.query, mutation := r.mutation, subscription := r.subscription,
+    schemaDirectives := dirs1,
+    types := (match r.query with
+      | some q => modifyKV q addIntrospection s.types
+      | none => s.types),
+    directives := s.directives,
+    possibleTypes := relOut s.possible, implements := relOut s.implements,
+    description := match sd.schema with | [d] => d.desc | _ => [] }
+
+def noRoots : Roots := { query := none, mutation := none, subscription := none }
+
 /-- everything after the relations are built, on the state whose maps are final -/
 def finish (sd : SchemaDoc) (s : LState) : LoadResult :=
   match sd.schema with
   | _ :: second :: _ => .err (errorPosf second.pos Msg.multipleSchema)
   | schemaDefs =>
-    match applySchemaDefs s schemaDefs { query := none, mutation := none, subscription := none } [] with
+    match applySchemaDefs s schemaDefs noRoots [] with
     | .err e => .err e
     | .panic => .panic
     | .ok r0 dirs0 =>
@@ -547,15 +565,7 @@ def finish (sd : SchemaDoc) (s : LState) : LoadResult :=
           match validateDirectiveDefinitions s with
           | .fail e => .err e
           | .panic => .panic
-          | .pass =>
-            let r := if sd.schema.isEmpty then inferRoots s.types r1 else r1
-            let types := match r.query with
-              | some q => modifyKV q addIntrospection s.types
-              | none => s.types
-            .ok { query := r.query, mutation := r.mutation, subscription := r.subscription,
-                  schemaDirectives := dirs1, types := types, directives := s.directives,
-                  possibleTypes := relOut s.possible, implements := relOut s.implements,
-                  description := match sd.schema with | [d] => d.desc | _ => [] }
+          | .pass => .ok (mkSchema sd s r1 dirs1)
 
 /-- the state in which every validator runs: all four maps are final before the first check -/
 def buildState (sd : SchemaDoc) : Except LoadError LState :=
